@@ -304,6 +304,8 @@ class _LandmarksConditional:
         self.L = L
         self._state_variables.add("L")
 
+        y_cov_factor = _sigma_to_y_cov_factor(sigma, y_cov_factor, xu.shape[0])
+
         C = solve_triangular(L_B, dot(A, y_cov_factor), lower=True)
         Z = solve_triangular(L_B.T, C)
         W = solve_triangular(L.T, Z)
@@ -439,6 +441,9 @@ class _LandmarksConditionalCholesky:
 
         self.L = L
         self._state_variables.add("L")
+
+        if sigma is None:
+            _sigma_to_y_cov_factor(None, None, xu.shape[0])
 
         try:
             Stds = diagonal(sigma)
